@@ -7,12 +7,13 @@ export GOFLAGS=-mod=mod GOPROXY=off GOSUMDB=off GOTOOLCHAIN=local
 mkdir -p bin gen evidence work
 (cd translators/t2 && go build -o ../../bin/t2 .)
 if [ -d translators/t3 ]; then (cd translators/t3 && go build -o ../../bin/t3 .); fi
-python3 translators/t1_ontology.py /repo gen/ontology.json
-bin/t2 /repo > gen/impl.json
+python3 translators/t1_ontology.py "${VERIF_REPO:-/repo}" gen/ontology.json
+bin/t2 "${VERIF_REPO:-/repo}" > gen/impl.json
 python3 translators/gen_lean.py gen lean
-[ -f translators/gen_sites.py ] && python3 translators/gen_sites.py /repo gen lean || true
+[ -f translators/gen_sites.py ] && python3 translators/gen_sites.py "${VERIF_REPO:-/repo}" gen lean || true
 python3 translators/gen_harness.py gen harness
-cp /repo/go.sum harness/go.sum
+cp "${VERIF_REPO:-/repo}"/go.sum harness/go.sum
+sed -i "s#^replace github.com/go-fed/activity => .*#replace github.com/go-fed/activity => ${VERIF_REPO:-/repo}#" harness/go.mod
 (cd harness && go build -tags verif -o ../bin/harness .)
 (cd lean && lake build AV avdrv)
 echo "setup: ok"
